@@ -553,3 +553,168 @@ def c15(run, scratch):
 
 
 REPLAYERS["MC_CacheIO_policies"] = lambda run, scratch, rec: replay_cases(run, scratch, "MC_CacheIO_policies", [rec["case"]], "sink")
+
+
+# ---------------------------------------------------------------------------------------------
+# C13 no mapping bytes and no query can make the library panic or overflow
+# ---------------------------------------------------------------------------------------------
+def _c13_corrupt(ev):
+    ev["status"]["cache"] = "panic"
+    return ev
+
+
+@prop("C13")
+def c13(run, scratch):
+    t = run.tier == "thorough"
+    for reader in ("mapper", "cache"):
+        expect_counterexample(run, scratch, "MC_LineArith", f"MC_LineArith_{reader}_unchecked.cfg",
+                              "the overflow of ostart + line - start")
+        r = run_tlc(scratch, "MC_LineArith", cfg=f"MC_LineArith_{reader}_saturating.cfg", workers=8, timeout=900)
+        if r.violation:
+            run.violation("MC_LineArith", {"signature": {"step": "MC_LineArith", "reader": reader}, "tlc": r.violation,
+                                           "output": r.out[-4000:]})
+        run.add_tlc(f"MC_LineArith_{reader}_saturating", r, note="every field/line value at small width: no overflow, offset rule kept")
+    events = harness_trace(scratch, "retrace", "total", ["--seed", run.seed, "--n", 400 if t else 90, "--queries", 60,
+                                                         "--focus", "all", "--wild", "--files", ""])
+    nload = len([e for e in events if e["t"] == "load"])
+    bad = [e for e in events if e["t"] != "load" and any(v != "ok" for v in e["status"].values())]
+    e = next((x for x in events if x["t"] == "call"), None)
+    if e:
+        run.sample({"call": e["api"], "arg": b2s(e["arg"])[:120] if e["arg"] else "", "status": e["status"]})
+    validate_pure_trace(run, scratch, "Trace_Total", "Trace_Retrace", events, workers=14 if t else 10, timeout=3000,
+                        corrupt=_c13_corrupt, canary_pred=lambda ev: ev["t"] == "q",
+                        signature=lambda ev: {"api": ev.get("api", "query"),
+                                              "status": sorted(set(ev.get("status", {}).values()))})
+    run.steps[-1]["sessions"] = nload
+    run.steps[-1]["calls_not_ok_recorded"] = len(bad)
+    run.exhaustive = False
+    run.assumptions += COMMON_ASSUME + ["harness built with overflow-checks and debug-assertions: a wrapping overflow is observed as a panic"]
+
+
+# ---------------------------------------------------------------------------------------------
+# C12 no accepted buffer can make a query panic, overflow or read outside
+# ---------------------------------------------------------------------------------------------
+def _c12_corrupt(ev):
+    ev["calls"][0]["provenance_ok"] = False
+    return ev
+
+
+@prop("C12")
+def c12(run, scratch):
+    t = run.tier == "thorough"
+    expect_counterexample(run, scratch, "MC_LineArith", "MC_LineArith_cache_unchecked.cfg", "the overflow on untrusted fields")
+    r = run_tlc(scratch, "MC_LineArith", cfg="MC_LineArith_cache_saturating.cfg", workers=8, timeout=900)
+    if r.violation:
+        run.violation("MC_LineArith", {"signature": {"step": "MC_LineArith"}, "tlc": r.violation, "output": r.out[-4000:]})
+    run.add_tlc("MC_LineArith_cache_saturating", r, note="all u32 field values x all lines at small width: no overflow")
+    events = harness_trace(scratch, "corrupt", "corrupt", ["--seed", run.seed, "--n", 600 if t else 120])
+    acc = [e for e in events if e["parse"]["ok"]]
+    run.sample({"corruption": acc[1]["what"] if len(acc) > 1 else "", "accepted": True, "probes": len(acc[1]["calls"]) if len(acc) > 1 else 0})
+    wf, _ = validate_pure_trace(run, scratch, "Trace_Corrupt", "Trace_Corrupt", events, workers=14 if t else 10, timeout=3000,
+                                corrupt=_c12_corrupt, canary_pred=lambda ev: ev["parse"]["ok"] and len(ev["calls"]) > 0,
+                                signature=lambda ev: {"what": ev["what"],
+                                                      "detail": sorted({c.get("detail", "") for c in ev["calls"] if c["status"] != "ok"})})
+    run.steps[-1]["buffers_accepted_by_parse"] = len(acc)
+    run.exhaustive = False
+    run.assumptions += COMMON_ASSUME + ["soundness of the two unsafe Pod casts is observed only through results",
+                                        "provenance is computed from pointer ranges by the harness"]
+
+
+# ---------------------------------------------------------------------------------------------
+# C10 version-1 files mean the same to every release that accepts them
+# ---------------------------------------------------------------------------------------------
+def _c10_corrupt(ev):
+    ev["differ"] = ev["differ"] + [{"q": {"t": "class", "name": [97]}, "pinned": [], "current": [[98]]}]
+    return ev
+
+
+@prop("C10")
+def c10(run, scratch):
+    t = run.tier == "thorough"
+    for cfg, expect_ok in (("Disciplined", True), ("SameRelease", True), ("Undisciplined", False)):
+        r = run_tlc(scratch, "MC_CacheHistory", cfg=f"MC_CacheHistory_{cfg}.cfg", workers=4, timeout=600)
+        if expect_ok and r.violation:
+            run.violation("MC_CacheHistory", {"signature": {"step": cfg}, "tlc": r.violation, "output": r.out[-3000:]})
+        if not expect_ok and not r.violation:
+            raise ToolError("MC_CacheHistory_Undisciplined: the model no longer refutes a layout change without version bump")
+        if expect_ok:
+            run.add_tlc("MC_CacheHistory_" + cfg, r)
+        else:
+            run.steps.append({"step": "MC_CacheHistory_" + cfg, "expected_counterexample_found": True})
+    files = SMALL_CORPUS + (BIG_CORPUS if t else [])
+    events = harness_trace(scratch, "xver", "xver", ["--seed", run.seed, "--n", 300 if t else 80, "--queries", 120 if t else 60,
+                                                     "--files", ",".join(files)])
+    e = events[len(events) // 2]
+    run.sample({"writer": e["writer"], "file_len": e["len"], "parse": e["parse"], "queries": e["n"], "answers_that_differ": len(e["differ"])})
+    validate_pure_trace(run, scratch, "Trace_XVer", "Trace_XVer", events, workers=14 if t else 10, timeout=3000,
+                        corrupt=_c10_corrupt, canary_pred=lambda ev: ev["parse"]["pinned"]["ok"] and ev["parse"]["current"]["ok"],
+                        signature=lambda ev: {"writer": ev["writer"], "parse": [ev["parse"]["pinned"].get("err", "ok"),
+                                                                                 ev["parse"]["current"].get("err", "ok")]})
+    run.evaluations += sum(ev["n"] for ev in events) * 2
+    run.exhaustive = False
+    run.assumptions += COMMON_ASSUME + ["pinned/proguard-5.5.0 is a verbatim copy of the sources at f3fcb84 (git show), built as crate proguard_pinned",
+                                        "answers of the two readers are compared structurally by the harness; TLC decides on the recorded differences"]
+
+
+# ---------------------------------------------------------------------------------------------
+# C18 the mapping UUID
+# ---------------------------------------------------------------------------------------------
+def _c18_corrupt(ev):
+    ev["uuid"] = list(ev["uuid"])
+    ev["uuid"][0] = (ev["uuid"][0] + 1) % 256
+    return ev
+
+
+@prop("C18")
+def c18(run, scratch):
+    t = run.tier == "thorough"
+    files = SMALL_CORPUS[:2] + ([BIG_CORPUS[0]] if t and BIG_CORPUS else [])
+    events = harness_trace(scratch, "uuid", "uuid", ["--seed", run.seed, "--n", 60 if t else 20, "--max", 262144 if t else 8192,
+                                                     "--files", ",".join(files)])
+    run.sample({"input_len": len(events[2]["bytes"]), "uuid": bytes(events[2]["uuid"]).hex(),
+                "repeats_in_other_processes": len(events[2]["again"]) - 1})
+    validate_pure_trace(run, scratch, "Trace_Uuid", "Trace_Uuid", events, workers=14, timeout=3000,
+                        corrupt=_c18_corrupt, signature=lambda ev: {"len": len(ev["bytes"])})
+    run.extra["total_input_bytes_hashed_by_tlc"] = sum(len(e["bytes"]) for e in events)
+    run.exhaustive = False
+    run.assumptions += ["SHA-1 / UUIDv5 are transcribed into TLA+ (spec/lib/Sha1.tla, spec/Uuid.tla) and evaluated by TLC with the "
+                        "Bitwise module; this is function transcription, not state exploration",
+                        "inputs up to 8 KiB (quick) / 256 KiB (thorough) per call; the statement's 1 MiB bound is not reached"]
+
+
+# ---------------------------------------------------------------------------------------------
+# C20 shareable across threads, answers as if alone
+# ---------------------------------------------------------------------------------------------
+@prop("C20")
+def c20(run, scratch):
+    import subprocess
+    from .core import HARNESS, ROOT
+    t = run.tier == "thorough"
+    # compile-time half: decided by rustc on harness/sendsync (auto traits are not a TLC question)
+    env = dict(os.environ, CARGO_NET_OFFLINE="true")
+    p = subprocess.run(["cargo", "build", "--offline", "--quiet", "-p", "sendsync"], cwd=HARNESS, env=env,
+                       stdout=subprocess.PIPE, stderr=subprocess.STDOUT, text=True)
+    if p.returncode != 0:
+        if "Send" in p.stdout or "Sync" in p.stdout or "cannot be shared" in p.stdout or "cannot be sent" in p.stdout:
+            run.violation("sendsync", {"signature": {"step": "sendsync"}, "compiler_output": p.stdout[-6000:]})
+        else:
+            raise ToolError("sendsync crate failed to build for another reason:\n" + p.stdout[-3000:])
+    else:
+        q = subprocess.run([os.path.join(HARNESS, "target", "debug", "sendsync")], stdout=subprocess.PIPE, text=True)
+        run.steps.append({"step": "sendsync", "types_asserted_send_sync": 16, "ran": q.stdout.strip()})
+    expect_counterexample(run, scratch, "MC_Sharing", "MC_Sharing_shared.cfg", "a cursor kept inside the shared handle")
+    r = run_tlc(scratch, "MC_Sharing", cfg="MC_Sharing_local.cfg", workers=8, timeout=900)
+    if r.violation:
+        run.violation("MC_Sharing", {"signature": {"step": "MC_Sharing"}, "tlc": r.violation, "output": r.out[-4000:]})
+    run.add_tlc("MC_Sharing_local", r, note="3 threads x 2 queries, all interleavings of iterator steps")
+    events = harness_trace(scratch, "threads", "threads", ["--seed", run.seed, "--n", 60 if t else 12, "--queries", 300 if t else 120,
+                                                           "--files", ",".join(SMALL_CORPUS[:3] if t else SMALL_CORPUS[:1])])
+    qe = [e for e in events if e["t"] == "q"]
+    run.sample({"threads_in_first_session": len({e["thread"] for e in qe if e["sid"] == 1}),
+                "event": {"thread": qe[0]["thread"], "seq": qe[0]["seq"], "query": _show_query(qe[0]["q"])}})
+    validate_pure_trace(run, scratch, "Trace_Threads", "Trace_Retrace", events, workers=14 if t else 10, timeout=3000,
+                        corrupt=_retrace_trace_corrupt, canary_pred=lambda ev: ev["t"] == "q" and ev["sid"] == 1,
+                        signature=lambda ev: {"thread": ev.get("thread"), "query_kind": ev.get("q", {}).get("t")})
+    run.exhaustive = False
+    run.assumptions += COMMON_ASSUME + ["the auto-trait half is decided by the Rust type checker (harness/sendsync), not by TLC",
+                                        "thread interleavings are whatever the OS scheduler produces (2..16 threads, barrier start)"]
